@@ -129,6 +129,11 @@ func c19Decorate(p []byte, decor string) []byte {
 		return append(append([]byte{}, p...), pem.EncodeToMemory(&pem.Block{Type: "CERTIFICATE", Bytes: []byte("not a certificate")})...)
 	case "trailing-text":
 		return append(append([]byte{}, p...), []byte("\n\n# trailing comment\n   \n")...)
+	case "trailing-key":
+		// trailing data that is itself a key of somebody else (a bundle): the first block is the key
+		return append(append([]byte{}, p...), hx.PoolKey("ed25519-3").PKIXPEM()...)
+	case "trailing-private-key":
+		return append(append(append([]byte{}, p...), '\n'), hx.PoolKey("ecdsa-p256-1").PKCS8PEM()...)
 	case "blank-lines":
 		return append([]byte("\n\n\n"), append(append([]byte{}, p...), '\n', '\n')...)
 	}
@@ -228,7 +233,7 @@ func c19Gen(t *rapid.T) c19Case {
 	}
 	c.Index = rapid.IntRange(0, nIdx-1).Draw(t, "index")
 	forms := c19Forms(c.Kind)
-	decors := []string{"none", "none", "leading", "crlf", "trailing-block", "trailing-text", "blank-lines"}
+	decors := []string{"none", "none", "leading", "crlf", "trailing-block", "trailing-text", "blank-lines", "trailing-key", "trailing-private-key"}
 	loaders := []string{"file", "file-defaults", "reader", "reader-defaults"}
 	load := func(l string) c19Load {
 		return c19Load{Form: rapid.SampledFrom(forms).Draw(t, l+"form"), Decor: rapid.SampledFrom(decors).Draw(t, l+"decor"), Loader: rapid.SampledFrom(loaders).Draw(t, l+"loader")}
